@@ -14,6 +14,7 @@ import (
 	"encoding/json"
 	"fmt"
 	"math/big"
+	"sort"
 	"strings"
 
 	"github.com/cloudflare/pat-go/ecdsa"
@@ -354,6 +355,63 @@ func checkSpecialKey(p skP) (string, *mc.Viol) {
 		return "", &mc.Viol{Sig: fmt.Sprintf("%s: Verify %ss what crypto/ecdsa %ss (public key with a special coordinate)", p.Curve, acc(here), acc(std)), What: desc}
 	}
 	return "special key: both " + acc(std), nil
+}
+
+// ---- key generation on boundary entropy ----
+//
+// Whatever the entropy source delivers, a generated key is a valid ECDSA key: 1 <= D <= N-1,
+// (X, Y) = D*G, and a signature made with it verifies under crypto/ecdsa.
+
+type kgP struct {
+	Curve string `json:"curve"`
+	Name  string `json:"entropy"`
+	Block string `json:"entropy_block_hex"`
+}
+
+type blockReader struct {
+	b []byte
+}
+
+func (r *blockReader) Read(p []byte) (int, error) {
+	for i := range p {
+		if len(r.b) > 0 {
+			p[i] = r.b[0]
+			r.b = r.b[1:]
+		} else {
+			p[i] = 0
+		}
+	}
+	return len(p), nil
+}
+
+func checkKeyGen(p kgP) (string, *mc.Viol) {
+	c := curves[p.Curve]
+	blk, _ := hex.DecodeString(p.Block)
+	var k *ecdsa.PrivateKey
+	var err error
+	if pn := mc.Catch(func() { k, err = ecdsa.GenerateKey(c, &blockReader{b: append([]byte{}, blk...)}) }); pn != "" {
+		return "", &mc.Viol{Sig: p.Curve + ": GenerateKey panics on a healthy entropy source", What: p.Name + ": " + pn}
+	}
+	if err != nil || k == nil {
+		return "", &mc.Viol{Sig: p.Curve + ": GenerateKey fails on a healthy entropy source", What: fmt.Sprintf("%s: %v", p.Name, err)}
+	}
+	N := c.Params().N
+	if k.D == nil || k.D.Sign() <= 0 || k.D.Cmp(N) >= 0 {
+		return "", &mc.Viol{Sig: p.Curve + ": GenerateKey returns a private scalar outside [1, N-1]", What: fmt.Sprintf("%s: D = %v", p.Name, k.D)}
+	}
+	x, y := c.ScalarBaseMult(k.D.Bytes())
+	if k.X == nil || k.Y == nil || x.Cmp(k.X) != 0 || y.Cmp(k.Y) != 0 {
+		return "", &mc.Viol{Sig: p.Curve + ": GenerateKey returns a public key that is not D*G", What: p.Name}
+	}
+	dg := digestOf(0, "fill", 32)
+	var r, s2 *big.Int
+	if pn := mc.Catch(func() { r, s2, err = ecdsa.Sign(mc.NewStream(0, "c13-keygen-sign"), k, dg) }); pn != "" || err != nil {
+		return "", &mc.Viol{Sig: p.Curve + ": Sign fails with a freshly generated key", What: fmt.Sprintf("%s: %s %v", p.Name, pn, err)}
+	}
+	if !stdecdsa.Verify(&stdecdsa.PublicKey{Curve: c, X: x, Y: y}, dg, r, s2) {
+		return "", &mc.Viol{Sig: p.Curve + ": a signature made with a freshly generated key is rejected by crypto/ecdsa", What: p.Name}
+	}
+	return "keygen: valid key on boundary entropy", nil
 }
 
 type nb struct {
@@ -957,6 +1015,12 @@ func main() {
 		_, v := checkSpecialKey(p)
 		return v
 	})
+	r.RegisterReplay("keygen", func(pj json.RawMessage) *mc.Viol {
+		var p kgP
+		json.Unmarshal(pj, &p)
+		_, v := checkKeyGen(p)
+		return v
+	})
 	r.RegisterReplay("wrap", func(pj json.RawMessage) *mc.Viol {
 		var p wrapP
 		json.Unmarshal(pj, &p)
@@ -1134,6 +1198,41 @@ func main() {
 			r.Case(fmt.Sprintf("specialkey|%+v", sk[i]), true, out)
 		})
 		r.Set("special_public_key_cases", len(sk))
+	}
+
+	// ---- part A4: key generation on boundary entropy ----
+	{
+		var ks []kgP
+		for _, cn := range curveNames {
+			c := curves[cn]
+			N := c.Params().N
+			n := c.Params().BitSize/8 + 8
+			two := big.NewInt(2)
+			nm1 := new(big.Int).Sub(N, one)
+			vals := map[string]*big.Int{"0": big.NewInt(0), "1": one, "N-2": new(big.Int).Sub(N, two), "N-1": nm1, "N": N, "N+1": new(big.Int).Add(N, one),
+				"2(N-1)-1": new(big.Int).Sub(new(big.Int).Mul(nm1, two), one), "2(N-1)": new(big.Int).Mul(nm1, two), "2N": new(big.Int).Mul(N, two),
+				"all ff": new(big.Int).Sub(new(big.Int).Lsh(one, uint(8*n)), one), "k(N-1) just below 2^bits": new(big.Int).Mul(nm1, new(big.Int).Div(new(big.Int).Lsh(one, uint(8*n)), nm1))}
+			names := make([]string, 0, len(vals))
+			for k := range vals {
+				names = append(names, k)
+			}
+			sort.Strings(names)
+			for _, name := range names {
+				v := vals[name]
+				if v.BitLen() > 8*n {
+					continue
+				}
+				ks = append(ks, kgP{Curve: cn, Name: "entropy block = " + name, Block: hex.EncodeToString(v.FillBytes(make([]byte, n)))})
+			}
+		}
+		for _, p := range ks {
+			out, v := checkKeyGen(p)
+			if v != nil {
+				out = v.Sig
+				r.Violation("keygen", p, v)
+			}
+			r.Case(fmt.Sprintf("keygen|%s|%s", p.Curve, p.Name), true, out)
+		}
 	}
 
 	// ---- part B: DER, split into chunks for load balance ----
